@@ -393,6 +393,15 @@ func (s *Sim) Load(c ClusterT) {
 	}
 }
 
+// SetPolicy adds/updates or removes one policy in the lister (what the informer does before it calls the handler).
+func (s *Sim) SetPolicy(p PolicyT, present bool) {
+	if present {
+		_ = s.polIdx.Add(p.toK8s())
+	} else {
+		_ = s.polIdx.Delete(p.toK8s())
+	}
+}
+
 func isGLX(name string) bool { return len(name) >= 3 && name[:3] == "GLX" }
 
 // OwnState renders the GLX-owned chains and sets canonically: policy-chain rules in order, pod-chain jumps as a
